@@ -113,6 +113,20 @@ func checkC11(p *Prog, rp *Report) {
 			m.Hooks[n] = wrap(short)
 		}
 		m.Hooks["bufio.NewReaderSize"] = wrap("bufio")
+		m.Hooks["io.MultiReader"] = func(m *Machine, st *State, call *ssa.CallCommon, args []Val) ([]Val, bool) {
+			elems, _, ok := m.sliceElems(st, args[0])
+			if !ok {
+				return nil, false
+			}
+			var ps []string
+			for _, e := range elems {
+				ps = append(ps, prov(st, e))
+			}
+			id := st.alloc(types.Typ[types.Int], OpaqueV{"multi(" + strings.Join(ps, "+") + ")"})
+			return []Val{IfaceV{T: ifT, V: Ptr{Obj: id}}}, true
+		}
+		m.Hooks["io.LimitReader"] = wrap("limit")
+		m.Hooks["io.TeeReader"] = wrap("tee")
 		content := "Source: plain-control-data\n"
 		if sc.signed {
 			content = "-----BEGIN PGP SIGNED MESSAGE-----\nHash: SHA256\n\nSource: x\n"
